@@ -341,6 +341,11 @@ def as_window(ip, v, by_ref=False, root=None):
             return inner.iter_window('pairs')
     if isinstance(v, MapM):
         return v.iter_window('pairs_owned')
+    if isinstance(v, Enum) and v.name == 'Option':
+        # Option<T> as IntoIterator: zero or one element
+        d = v.discr if not isinstance(v.discr, int) else z3.IntVal(v.discr)
+        pl = v.payload.get(1)
+        return Window(Seq([pl[0]] if pl else [], z3.If(d == 1, 1, 0), 'vec'), 0, z3.If(d == 1, 1, 0), by_ref, None)
     if hasattr(v, 'into_iter'):
         return v.into_iter(ip)
     if hasattr(v, 'next'):
@@ -855,6 +860,19 @@ def install(ctx):
             return Window(s, z3.simplify(a), z3.simplify(b))
         raise Unsupported('drain of a sub-range')
 
+    @M.reg('Vec::split_off', 'VecDeque::split_off')
+    def vec_split_off(ip, pc, args, dt):
+        r, at = args
+        s = read_loc(r.loc)
+        if not isinstance(s, Seq) or getattr(s, 'lazy', None):
+            raise Unsupported('split_off on %r' % (s,))
+        if not ip.path.branch(z3.And(at.t >= 0, at.t <= s.n), 'split_off bound'):
+            raise PanicPath('panic', 'split_off: at > len')
+        cap = len(s.elems)
+        tail = [select(s.elems, z3.simplify(at.t + j), default=s.elems[j]) for j in range(cap)]
+        write_loc(r.loc, Seq(list(s.elems), z3.simplify(at.t), s.kind))
+        return Seq(tail, z3.simplify(s.n - at.t), s.kind)
+
     @M.reg('VecDeque::rotate_left', 'VecDeque::rotate_right', '[T]::rotate_left', '[T]::rotate_right')
     def rotate(ip, pc, args, dt):
         r, k = args
@@ -1064,6 +1082,43 @@ def install(ctx):
             s = read_loc(loc)
         cmpfn = ip.ctx.ord_lt_for(ip, s, pc)
         srt = yield from sort_seq(ip, s, cmpfn)
+        write_loc(loc, srt)
+        return UNIT
+
+    @M.reg('[T]::sort_unstable_by', '[T]::sort_by', 'Vec::sort_by', 'Vec::sort_unstable_by', '::sort_unstable_by', '::sort_by')
+    def sort_by(ip, pc, args, dt):
+        # the comparator is a closure (&T, &T) -> Ordering: element a sorts before b iff it answers Less
+        r, f = args[0], args[1]
+        loc = r.loc
+        s = read_loc(loc)
+        if isinstance(s, Ref):
+            loc = s.loc
+            s = read_loc(loc)
+
+        def lt(a, b):
+            o = yield from ip.call_closure(f, [Ref(Loc(Cell(a, 'sort-a'))), Ref(Loc(Cell(b, 'sort-b')))])
+            d = o.discr if not isinstance(o.discr, int) else z3.IntVal(o.discr)
+            return d == -1
+        srt = yield from sort_seq(ip, s, lt)
+        write_loc(loc, srt)
+        return UNIT
+
+    @M.reg('[T]::sort_unstable_by_key', '[T]::sort_by_key', 'Vec::sort_by_key', 'Vec::sort_unstable_by_key', '::sort_unstable_by_key', '::sort_by_key',
+           '[T]::sort_by_cached_key', '::sort_by_cached_key')
+    def sort_by_key(ip, pc, args, dt):
+        r, f = args[0], args[1]
+        loc = r.loc
+        s = read_loc(loc)
+        if isinstance(s, Ref):
+            loc = s.loc
+            s = read_loc(loc)
+
+        def lt(a, b):
+            ka = yield from ip.call_closure(f, [Ref(Loc(Cell(a, 'sort-a')))])
+            kb = yield from ip.call_closure(f, [Ref(Loc(Cell(b, 'sort-b')))])
+            l, _ = lex_cmp(deref_all(ka), deref_all(kb))
+            return l
+        srt = yield from sort_seq(ip, s, lt)
         write_loc(loc, srt)
         return UNIT
 
